@@ -132,14 +132,22 @@ class SimCalculateFull(Contract):
     name = f"{SIM}.calculate"
     prop = ("C17", "C18", "C01")
     top_level = True
-    cases = tuple((t, d) for t in ("simple", "full") for d in (0, 1, 2))
-    descr = ("on every exit, normal or exceptional, the evaluation stack is what it was at entry, the trace position is restored, "
-             "the request appears exactly once in the trace under the node current at entry (with the value returned), and the "
-             "purge of invalidated entries has run; the value returned is what _calculate returns")
+    cases = tuple((t, d) for t in ("simple", "full") for d in (0, 1, 2)) + (("simple", "period-given-as-text"), ("full", "period-given-as-text"))
+    descr = ("on every exit, normal or exceptional (any exception, a user interrupt included), the evaluation stack is what it was at "
+             "entry, the trace position is restored, the request appears exactly once in the trace under the node current at entry "
+             "(with the value returned), and the purge of invalidated entries has run; the value returned is what _calculate returns; "
+             "a period given as text or number is turned into a period before anything is recorded, so that the frame the cycle "
+             "detection compares carries the period itself")
     inline = (SIMPLE + ".*", FULL + ".*", TNODE + ".*")
 
     def setup(self, I, ctx, case):
         tracer, depth = case
+        if depth == "period-given-as-text":
+            w = World18(I, ctx, tracer, 1)
+            ctx.ghost["converted"] = sym_period(I, ctx, "month")
+            return {"self": w.sim, "variable_name": "v", "period": "2013-01", "__w": w, "__text": True,
+                    "__stack0": list(w.stack.items), "__trees0": list(w.trees.items),
+                    "__children0": list(w.entry_node.fields["children"].items) if w.entry_node else None}
         w = World18(I, ctx, tracer, depth)
         return {"self": w.sim, "variable_name": "v", "period": sym_period(I, ctx, "month"), "__w": w,
                 "__stack0": list(w.stack.items), "__trees0": list(w.trees.items),
@@ -148,7 +156,9 @@ class SimCalculateFull(Contract):
     @staticmethod
     def local_contracts():
         val = lambda I, ctx, a: arr(ctx, "computed")
-        return {f"{SIM}._calculate": rec(f"{SIM}._calculate", "_calculate", [("return", val), ("raise", "Exception")]),
+        return {f"{SIM}._calculate": rec(f"{SIM}._calculate", "_calculate", [("return", val), ("raise", "Exception"), ("raise", "KeyboardInterrupt")],
+                                         observe=lambda I, ctx, a: {"top_frame": (stack_of(a["self"]).items or [None])[-1]}),
+                "openfisca_core.periods.helpers.period": rec("openfisca_core.periods.helpers.period", "to_period", [("return", lambda I, ctx, a: ctx.ghost["converted"])]),
                 f"{SIM}.purge_cache_of_invalid_values": rec(f"{SIM}.purge_cache_of_invalid_values", "purge", [("return", None)],
                                                             observe=lambda I, ctx, a: {"stack_len": len(stack_of(a["self"]).items)})}
 
@@ -160,7 +170,16 @@ class SimCalculateFull(Contract):
         w = a["__w"]
         calc = log_of(ctx, "_calculate")
         purge = log_of(ctx, "purge")
-        res = [("stack-as-at-entry", len(w.stack.items) == len(a["__stack0"]) and all(x is y for x, y in zip(w.stack.items, a["__stack0"]))),
+        if a.get("__text"):
+            conv = log_of(ctx, "to_period")
+            a = dict(a, period=ctx.ghost["converted"])
+            top = calc[0].get("top_frame") if calc else None
+            pre = [("text-turned-into-a-period-once", len(conv) == 1),
+                   ("the-frame-pushed-for-the-request-carries-the-period-not-the-text",
+                    isinstance(top, DictVal) and any(v is a["period"] for v in top.items.values()))]
+        else:
+            pre = []
+        res = pre + [("stack-as-at-entry", len(w.stack.items) == len(a["__stack0"]) and all(x is y for x, y in zip(w.stack.items, a["__stack0"]))),
                ("one-evaluation", len(calc) == 1 and calc[0]["args"]["variable_name"] == "v" and calc[0]["args"]["period"] is a["period"]),
                ("purge-runs-once-on-every-exit", len(purge) == 1)]
         if len(calc) != 1:
